@@ -97,6 +97,7 @@ func main() {
 		if *many != "" {
 			c := newCtx(ch, *tier, *seed)
 			c.WorkDir, _ = os.MkdirTemp("", "elkverif-"+ch.ID+"-")
+			c.singleCase = true
 			if ch.Init != nil {
 				ch.Init(c)
 			}
